@@ -140,10 +140,11 @@ impl Check for BarrierAndStatus {
     fn run(&self, e: &mut Entropy, ctx: &mut Ctx) -> Result<(), Failure> {
         // crowd: many shutdown requests with different statuses in the same instant (more than the shutdown channel holds)
         let mt = self.mt;
-        let workers = *e.pick(&[2usize, 4, 8]);
-        let wide = e.chance(1, 3);
-        let crowd = e.chance(1, 10);
-        let same_instant = crowd || e.chance(1, 4);
+        let legacy = ctx.legacy_layout;
+        let workers = if legacy { 2 } else { *e.pick(&[2usize, 4, 8]) };
+        let wide = !legacy && e.chance(1, 3);
+        let crowd = !legacy && e.chance(1, 10);
+        let same_instant = crowd || (!legacy && e.chance(1, 4));
         let nm = if crowd { 6 } else { e.weighted(&[1, 2, 3, 3, 2, 2, 1]) };
         let lift_forward_arp = e.chance(1, 16) && !mt;
         // ARP is used by all senders and receivers of a case or by none (a sender with ARP needs a receiver that answers)
@@ -173,7 +174,7 @@ impl Check for BarrierAndStatus {
             used_times.push(t);
             t
         };
-        let crowd_t = 1 + e.choose(if mt { 100 } else { 500 }) as u64;
+        let crowd_t = if legacy { 1 } else { 1 + e.choose(if mt { 100 } else { 500 }) as u64 };
         let mut serial = 0u32;
         for _ in 0..nm {
             let k = if crowd { 3 } else { e.weighted(&[3, 4, 2, 1]) };
